@@ -1,6 +1,7 @@
 """Tier B for C16: executable contract of NonBondEngine over exhaustively enumerated operation histories,
 against a brute-force periodic reference (bounded stand-in; never counted as proved)."""
 import itertools
+import os
 import random
 import numpy as np
 from vlib.realcode import load
@@ -37,7 +38,33 @@ class Ref:
         return f
 
 
-def make_engine(nbe, n_mol, n_node, box, predefined=None, big=0, rng=None):
+_PATCHED = {}
+
+
+def low_threshold_class(nbe, thr):
+    """NonBondEngine whose add_positions is the REAL method with the literal 5000 replaced by `thr`
+    (mechanical AST rewrite of the working-tree source at run time; nothing else is changed)"""
+    import ast, inspect, textwrap
+    key = (id(nbe), thr)
+    if key in _PATCHED:
+        return _PATCHED[key]
+    src = textwrap.dedent(inspect.getsource(nbe.NonBondEngine.add_positions))
+    tree = ast.parse(src)
+    hits = 0
+    for n in ast.walk(tree):
+        if isinstance(n, ast.Constant) and n.value == 5000:
+            n.value = thr
+            hits += 1
+    if hits != 1:
+        raise RuntimeError(f"expected exactly one literal 5000 in add_positions, found {hits}")
+    ns = {}
+    exec(compile(tree, nbe.__file__, "exec"), vars(nbe), ns)
+    cls = type("NonBondEngineLowThreshold", (nbe.NonBondEngine,), {"add_positions": ns["add_positions"]})
+    _PATCHED[key] = cls
+    return cls
+
+
+def make_engine(nbe, n_mol, n_node, box, predefined=None, big=0, rng=None, thr=None):
     n = n_mol * n_node + big
     positions = np.ones((n, 3)) * np.inf
     nodes_to_gndx = {}
@@ -57,7 +84,8 @@ def make_engine(nbe, n_mol, n_node, box, predefined=None, big=0, rng=None):
     if predefined:
         for (m, k), p in predefined.items():
             positions[nodes_to_gndx[(m, k)]] = p
-    eng = nbe.NonBondEngine(positions, nodes_to_gndx, atypes, inter, None, None, cut_off=cut, boxsize=np.asarray(box, float))
+    cls = nbe.NonBondEngine if thr is None else low_threshold_class(nbe, thr)
+    eng = cls(positions, nodes_to_gndx, atypes, inter, None, None, cut_off=cut, boxsize=np.asarray(box, float))
     ref = Ref(n, box, atypes, inter, cut)
     for g in range(n):
         if np.all(np.isfinite(positions[g])):
@@ -141,80 +169,89 @@ def metric_checks(eng, rng, n):
     return None
 
 
-def run(ctx, res):
+def eval_history(args):
+    """worker: returns (nontrivial, violation text or None)"""
+    hist, box, predefined, n_mol, n_node, big = args
     nbe = load("polyply.src.nonbond_engine")
-    rng = np.random.default_rng(ctx.seed)
-    n_mol, n_node = 2, 2 if not ctx.thorough else 3
-    length = 3 if not ctx.thorough else 4
+    thr = None
+    if big < 0:
+        thr, big = -big - 1, 0
+    eng, ref, n2g = make_engine(nbe, n_mol, n_node, box, predefined, big=big, thr=thr)
+    nontrivial = big > 0
+    probes_nodes = [(0, 0, ()), (0, 1, (0,)), (1, 0, ()), (1, 1, (0, 1))]
+    probes = [((POINTS[pi] + np.array([0.3, 0.05, 0.0])) % np.asarray(box), m, k, ex) for pi in (0, 2, 3) for (m, k, ex) in probes_nodes
+              if k < n_node and all(e < n_node for e in ex)]
+    for i, op in enumerate(hist):
+        if op[0] in ("remove", "concat") or (op[0] == "add" and n2g[(op[1], op[2])] in ref.pos):
+            nontrivial = True
+        try:
+            apply(eng, ref, n2g, op)
+            bad = check_state(eng, ref, n2g, n_mol, n_node, probes) if (big or i == len(hist) - 1) else None
+        except Exception as e:        # noqa: BLE001
+            bad = f"{type(e).__name__}: {e}"
+        if bad:
+            return nontrivial, f"after step {i} {op}: {bad}"
+    return nontrivial, None
+
+
+def run(ctx, res):
+    import multiprocessing as mp
+    rng = random.Random(ctx.seed)
+    n_mol, n_node = 2, 2
+    exh_len = 2 if not ctx.thorough else 3
+    n_random = 1500 if not ctx.thorough else 40000
     boxes = [(5.0, 5.0, 5.0)] if not ctx.thorough else [(5.0, 5.0, 5.0), (5.0, 6.0, 7.0)]
     alphabet = ops_alphabet(n_mol, n_node)
-    res.bound = (f"every history of length <= {length} over {len(alphabet)} operations (add at {len(POINTS)} points incl. both sides of a box face, "
-                 f"start flag, remove of every node subset, consolidate) on {n_mol} molecules x {n_node} nodes, boxes {boxes}, "
-                 "from an empty engine and from one with a predefined residue; plus histories on an engine whose first tree holds 5001 points")
-    res.rule = "history = operation sequence; non-trivial iff it contains a remove, a re-add of a positioned node, or a consolidation"
+    alphabet3 = ops_alphabet(2, 3)
+    res.bound = (f"EXHAUSTIVE: every history of length <= {exh_len} over {len(alphabet)} operations (add at {len(POINTS)} points on both sides of a "
+                 f"box face with both start flags, remove of every node subset, consolidate) on {n_mol} molecules x {n_node} nodes, boxes {boxes}, from an "
+                 f"empty engine and from one with a predefined residue.  MULTI-TREE WORLD (exhaustive): every history of length <= 3 (thorough 4) over 15 operations with the REAL add_positions whose literal tree threshold 5000 is lowered to 0 and 1 by an AST rewrite at run time.  BEYOND THE BOUND (seeded, not exhaustive): {n_random} random histories of "
+                 "length 3..7 on 2 molecules x 3 nodes; on an engine whose first tree holds 5001 points (new-tree threshold): every history of length <= 2 (thorough 3) over a reduced alphabet, 4 scripted and 300 (thorough 3000) random histories of length 3..6")
+    res.rule = "history = operation sequence; non-trivial iff it contains a remove, a re-add of a positioned node, a consolidation or crosses the tree threshold"
     res.exhaustive = True
-    probes_nodes = [(0, 0, ()), (0, 1, (0,)), (1, 0, ()), (1, 1, (0, 1))]
-    seen_nt = 0
+    jobs = []
     for box in boxes:
         for predefined in (None, {(1, 0): np.array([1.2, 1.0, 1.0])}):
-            for L in range(1, length + 1):
+            for L in range(1, exh_len + 1):
                 for hist in itertools.product(alphabet, repeat=L):
-                    # prune: only histories whose prefix we have not enumerated are new; all are distinct by construction
-                    eng, ref, n2g = make_engine(nbe, n_mol, n_node, box, predefined)
-                    nontrivial = False
-                    bad = None
-                    for op in hist:
-                        if op[0] in ("remove", "concat") or (op[0] == "add" and n2g[(op[1], op[2])] in ref.pos):
-                            nontrivial = True
-                        try:
-                            apply(eng, ref, n2g, op)
-                        except Exception as e:        # noqa: BLE001
-                            bad = f"operation {op} raised {type(e).__name__}: {e}"
-                            break
-                    if bad is None:
-                        probes = [((POINTS[pi] + np.array([0.3, 0.05, 0.0])) % np.asarray(box), m, k, ex) for pi in (0, 2, 3) for (m, k, ex) in probes_nodes
-                                  if k < n_node and all(e < n_node for e in ex)]
-                        try:
-                            bad = check_state(eng, ref, n2g, n_mol, n_node, probes)
-                        except Exception as e:        # noqa: BLE001
-                            bad = f"query raised {type(e).__name__}: {e}"
-                    res.evaluations += 1
-                    seen_nt += nontrivial
-                    if len(res.samples) < 3 and nontrivial and L == length:
-                        res.samples.append({"history": [str(o) for o in hist], "box": box})
-                    if bad:
-                        res.violations.append(Violation("engine-histories", f"history {[str(o) for o in hist]}: {bad}",
-                                                        inputs={"history": [str(o) for o in hist], "box": box, "predefined": str(predefined)},
-                                                        detail=bad, replayed=True, finding_key="engine-history"))
-                        if len(res.violations) >= 5:
-                            res.nontrivial = seen_nt
-                            return
-    # threshold crossing
-    for hist in ([("add", 0, 0, 0, True), ("add", 0, 1, 1, False), ("remove", 0, (0,)), ("add", 1, 0, 0, True), ("concat",), ("remove", 0, (1,))],
+                    jobs.append((hist, box, predefined, n_mol, n_node, 0))
+    for _ in range(n_random):
+        L = rng.randint(3, 7)
+        jobs.append((tuple(rng.choice(alphabet3) for _ in range(L)), rng.choice(boxes), None, 2, 3, 0))
+    # multi-tree world: the real add_positions with the literal tree threshold 5000 lowered to 0 / 1 (AST rewrite at run time)
+    lowalpha = [o for o in alphabet if o[0] != "add" or o[3] == (o[1] * 2 + o[2]) % 4]
+    for thr in (0, 1):
+        for L in range(1, (3 if not ctx.thorough else 4) + 1):
+            for hist in itertools.product(lowalpha, repeat=L):
+                jobs.append((hist, boxes[0], {(1, 0): np.array([1.2, 1.0, 1.0])} if thr else None, 2, 2, -thr - 1))
+    big_hists = ([("add", 0, 0, 0, True), ("add", 0, 1, 1, False), ("remove", 0, (0,)), ("add", 1, 0, 0, True), ("concat",), ("remove", 0, (1,))],
                  [("add", 0, 0, 0, True), ("remove", 0, (0,)), ("add", 0, 0, 1, False), ("add", 0, 1, 0, True), ("remove", 0, (0, 1))],
-                 [("add", 0, 0, 0, False), ("add", 1, 1, 1, True), ("concat",), ("add", 0, 1, 0, True), ("remove", 1, (1,)), ("remove", 0, (1,))]):
-        eng, ref, n2g = make_engine(nbe, n_mol, n_node, (10.0, 10.0, 10.0), None, big=5001)
-        bad = None
-        for i, op in enumerate(hist):
-            try:
-                apply(eng, ref, n2g, op)
-                probes = [(POINTS[pi] + np.array([0.3, 0.05, 0.0]), m, k, ex) for pi in (0, 1) for (m, k, ex) in probes_nodes[:2]]
-                bad = check_state(eng, ref, n2g, n_mol, n_node, probes)
-            except Exception as e:        # noqa: BLE001
-                bad = f"operation {op} raised {type(e).__name__}: {e}"
-            if bad:
-                bad = f"after step {i} {op}: {bad}"
-                break
+                 [("add", 0, 0, 0, False), ("add", 1, 1, 1, True), ("concat",), ("add", 0, 1, 0, True), ("remove", 1, (1,)), ("remove", 0, (1,))],
+                 [("add", 1, 0, 0, False), ("add", 0, 0, 1, True), ("add", 0, 1, 2, False), ("remove", 1, (0,)), ("remove", 0, (0, 1)), ("add", 0, 0, 0, False)])
+    for h in big_hists:
+        jobs.append((tuple(h), (10.0, 10.0, 10.0), None, 2, 2, 5001))
+    # threshold world: exhaustive short histories over a reduced alphabet (2 points) + seeded longer ones
+    small = [o for o in alphabet if o[0] != "add" or o[3] == (o[1] * 2 + o[2]) % 4 or (ctx.thorough and o[3] == (o[1] * 2 + o[2] + 1) % 4)]
+    for L in range(1, (1 if not ctx.thorough else 3) + 1):
+        for hist in itertools.product(small, repeat=L):
+            jobs.append((hist, (10.0, 10.0, 10.0), None, 2, 2, 5001))
+    for _ in range(60 if not ctx.thorough else 3000):
+        jobs.append((tuple(rng.choice(small) for _ in range(rng.randint(3, 6))), (10.0, 10.0, 10.0), None, 2, 2, 5001))
+    with mp.Pool(min(16, os.cpu_count() or 1)) as pool:
+        out = pool.map(eval_history, jobs, chunksize=8)
+    for job, (nt, bad) in zip(jobs, out):
         res.evaluations += 1
-        seen_nt += 1
-        if bad:
-            res.violations.append(Violation("engine-histories", f"threshold history {[str(o) for o in hist]}: {bad}",
-                                            inputs={"history": [str(o) for o in hist], "big": 5001}, detail=bad, replayed=True,
-                                            finding_key="engine-history"))
+        res.nontrivial += int(nt)
+        if len(res.samples) < 3 and nt and len(job[0]) >= 3:
+            res.samples.append({"history": [str(o) for o in job[0]], "box": job[1], "first_tree_points": job[5]})
+        if bad and len(res.violations) < 5:
+            res.violations.append(Violation("engine-histories", f"history {[str(o) for o in job[0]]}: {bad}",
+                                            inputs={"history": [str(o) for o in job[0]], "box": job[1], "predefined": str(job[2]), "first_tree_points": job[5]},
+                                            detail=bad, replayed=True, finding_key="engine-history"))
+    nbe = load("polyply.src.nonbond_engine")
     eng, _, _ = make_engine(nbe, 1, 1, (5.0, 6.0, 7.0))
-    bad = metric_checks(eng, rng, 200 if not ctx.thorough else 5000)
+    bad = metric_checks(eng, np.random.default_rng(ctx.seed), 200 if not ctx.thorough else 5000)
     res.evaluations += 1
     if bad:
         res.violations.append(Violation("engine-histories", bad, detail=bad, replayed=True, finding_key="pbc-metric"))
-    res.nontrivial = seen_nt
     res.assumptions.append("bounded: scipy KDTree agreement with the minimum-image metric is exercised, not proved")
